@@ -11,7 +11,7 @@ ASSUMPTIONS = c01.ASSUMPTIONS + ['which branch is preferred (min vs max of the o
 UNDECIDED_CLAUSES = []
 EXPLANATION = 'One-branch obligations on the real balanced sender; balanced-receiver invariant (single id, single active source, others unregistered) on the real recv.'
 
-SQ = [Shape(('all', 'all'), (0, 0), True), Shape(('explicit', 'all'), (0, 0), True), Shape(('all',), (0,), True)]
+SQ = [Shape(('all', 'all'), (0, 0), True), Shape(('explicit', 'all'), (0, 0), True), Shape(('all',), (0,), True), Shape(('all', 'all'), (0, 0), True, timeout='sym', entry='held')]
 ST = SQ + [Shape(('star', 'star'), (0, 0), True), Shape(('all', 'all', 'all'), (0, 0, 0), True)]
 
 
